@@ -114,6 +114,17 @@ func (e *Engine) VerifyFunc(key string, small bool) *FnCtx {
 		}
 		_ = resT
 		site := fmt.Sprintf("b%d", r.blk.Index)
+		// ghost code at function exit (`ghost-set G = E`): the frame is judged on the state before it
+		preGhost := r
+		if len(ctr.GhostSets) > 0 {
+			preGhost.state = r.state.clone()
+			for _, gs := range ctr.GhostSets {
+				env.ident(gs.Name)
+				v := env.tr(gs.E)
+				r.state.comp["G:"+gs.Name] = v.T
+			}
+			env.cur = r.state
+		}
 		for _, c := range ctr.Ensures {
 			if len(c.OnlyFor) > 0 && e.CurProp != "" && !containsStr(c.OnlyFor, e.CurProp) {
 				continue
@@ -225,7 +236,7 @@ func (e *Engine) VerifyFunc(key string, small bool) *FnCtx {
 			g := env.tr(ctr.PureDef.E)
 			fc.obls = append(fc.obls, &Obl{Func: key, Kind: "ensures", Label: "def", Site: site, NFacts: len(fc.facts), Path: r.reach, Goal: fmt.Sprintf("(= %s %s)", r.results[0], g.T), Text: ctr.PureDef.Text})
 		}
-		fr.modifiesObls(ctr, envPre, r, site)
+		fr.modifiesObls(ctr, envPre, preGhost, site)
 	}
 	if len(fr.rets) == 0 {
 		fc.errf("%s has no return", key)
